@@ -47,7 +47,7 @@ def createRequestJson (ty : String) (c : Parser.CreateReq) : Json :=
 
 /-- `parseInitialState`: the decoded bytes must be the canonical encoding of the request they denote -/
 def parseInitialState (initial : String) : Option Parser.CreateReq :=
-  match b64DecodeStr initial with
+  match b64DecodeStrictStr initial with
   | none => none
   | some bs =>
     match (stringOfBytes? bs).bind fun t => Parse.parse t.toList with
